@@ -53,11 +53,11 @@ def run(rep):
         witness, confirmed = (out.strip().splitlines()[0], True) if rc == 1 else (None, False)
         for f in failed:
             rep.violation("verus:relativize::" + f, verus.blocks_for(res, [f]), witness=witness,
-                          replay_text="./check C17 --replay <this file>   # replay_src/c17: 169800 (base, IRI, parents) triples on the real sophia_iri",
+                          replay_text="./check C17 --replay <this file>   # replay_src/c17: 193332 checks on the real sophia_iri",
                           confirmed=confirmed)
     # bounded stand-in for the clauses outside the Verus proof (str-heavy heuristic; CBMC does not finish on it)
     native.bounded_stand_in(rep, ID, "c17", ["first"], "c17_enumerator",
-                            "169800 (base, IRI, parents) triples: bases from 2 prefixes x 11 tails, IRIs with tails of <= 4 characters over {a,b,/,.,:,?,#}, parents 0..2, plus a completeness family (36 bases incl. empty paths, no authority, non-ASCII, ':' in the last segment, '?' and '/' inside the query; 20 query/fragment suffixes): Some(r) => valid reference, resolve(base, r) == iri, '../' count <= parents; IRIs equal to the base up to query/fragment are relativised unless no reference of <= 5 characters resolves to them; no panic",
+                            "193332 (base, IRI, parents) triples: bases from 2 prefixes x 11 tails, IRIs with tails of <= 4 characters over {a,b,/,.,:,?,#}, parents 0..2, plus a completeness family (36 bases incl. empty paths, no authority, non-ASCII, ':' in the last segment, '?' and '/' inside the query; 20 query/fragment suffixes): Some(r) => valid reference, resolve(base, r) == iri, '../' count <= parents; IRIs equal to the base up to query/fragment are relativised unless no reference of <= 5 characters resolves to them; no panic; an INDEPENDENT transcription of RFC 3986 5.2 agrees with the resolver on every returned reference and on all references of <= 4 characters (bases with an authority and no dot segment, references without scheme / authority: where the resolver in use follows the RFC to the letter)",
                             "tails <= 4 characters, 7-letter alphabet", "Relativizer::new, Relativizer::candidate, longest_common_prefix (iri/src/relativize.rs); BaseIri::resolve (oxiri)",
                             "./check C17 --replay <this file>")
     rep.not_covered += ["number of leading '../' <= parents (bounded native stand-in only)", "IRIs equal to the base up to query/fragment are always relativised (completeness of the heuristic)",
